@@ -9,7 +9,8 @@ def run(ck):
     if not exe:
         ck.violation("h_gauss does not compile", {"compiler_output": out[-3000:]}, tag="build", no_input=True); return ck.finish()
     q = ck.quick(); rng = ck.rng
-    prms = gc.PARAMS_QUICK + ([] if q else gc.PARAMS_MORE)
+    # the mpfr_t-centre constructor is in the quick tier too (every variant: both index widths, both depths)
+    prms = gc.PARAMS_QUICK + [gc.PARAMS_MORE[1]] + ([] if q else [x for i, x in enumerate(gc.PARAMS_MORE) if i != 1])
     fails, corr = [], []
     n_cases = 0; samples = []
     for prm in prms:
